@@ -7,6 +7,9 @@ import OPM.Lemmas.InterpC02d
 import OPM.Lemmas.InterpC02e
 import OPM.Lemmas.InterpC02f
 import OPM.Lemmas.InterpC02g
+import OPM.Lemmas.InterpC02h
+import OPM.Lemmas.InterpC02i
+import OPM.Model.TrailingWs
 set_option linter.unusedSimpArgs false
 /-!
 # C02 Method instructions run once each, in source order
@@ -32,6 +35,14 @@ What is proved, and for which methods:
   children loop (`loop_enters_child_in_order`, `loop_advances_when_child_returns`): children are
   entered in index order, one at a time, the next one only when the visit of the previous one has
   returned, never one below `child_index`;
+* for ALL methods, per generator and invocation (`invocation_visits_lines_in_order`,
+  `no_line_entered_twice_in_one_invocation`, `start_of_a_line_moves_the_position`): while one loop frame is
+  alive — one run of a Watch / Alarm / Block / macro body by one generator — its position only grows under
+  every interleaving: the lines are entered in index order, each at most once, each started at most once;
+  generators other than the main one arise only from registrations, and without Alarm / Call macro / End
+  block(s) a Watch is registered at most once (`watch_registered_at_most_once`).  What is NOT proved for
+  methods with interrupts or macro calls: that one invocation is run by exactly one generator (false for a
+  Watch nested in an Alarm) — that part rests on the oracle;
 * for ALL methods: every micro-step emits at most one instruction event and only at its site
   (`one_event_per_step_at_its_site`): an effect only from the instruction's own body at its entry
   point, in the step that also completes it (or hands the command to the engine); `started` only by
@@ -147,6 +158,62 @@ theorem loop_advances_when_child_returns (p : Prog) (s : St) (n inx : Nat) (belo
   refine ⟨_, rfl, ?_, ?_⟩
   · simp
   · intro k hk; simp [hk]
+
+/-! ## one invocation of a body, in one generator (all methods: Watch, Alarm, Block and macro bodies)
+
+A loop frame `children n inx b` sitting on `rest` is one run of the body of `n` by this generator — it is
+pushed by the step that emits `bodyStart` (for a macro: above the call's return frame).  The theorems hold
+for every state in which the generator's steps are taken, i.e. under every interleaving with the other
+generators, the engine and the requests. -/
+
+/-- **One micro-step never moves the loop of a body backwards** (position = `4·inx` + phase of the wrapper
+    of the line it is inside of), or the loop has ended. -/
+theorem loop_position_never_decreases (p : Prog) (s : St) (pre rest : List Frame) (n inx : Nat) (b : Bool)
+    (h : chainOK p (pre ++ .children n inx b :: rest)) :
+    (∃ pre' inx' b', (stepGen p s (pre ++ .children n inx b :: rest)).2.1 = pre' ++ .children n inx' b' :: rest ∧
+        loopPos pre inx b ≤ loopPos pre' inx' b') ∨
+    (stepGen p s (pre ++ .children n inx b :: rest)).2.1 = rest := loop_frame_progress p s pre rest n inx b h
+
+/-- **Within one invocation, one generator visits the lines of a body in source order, each at most once**:
+    over any number of its steps (`Life`), taken in arbitrary states, the position only grows. -/
+theorem invocation_visits_lines_in_order (p : Prog) (n : Nat) (rest : List Frame) (x z : List Frame × Nat × Bool)
+    (h : Life p n rest x z) (hc : chainOK p (x.1 ++ .children n x.2.1 x.2.2 :: rest)) :
+    InterpC02.pos x ≤ InterpC02.pos z := life_monotone p n rest x z h hc
+
+/-- …so a line that has been left (or whose `start` point has been passed) is never come back to in the same
+    invocation: equal positions at two moments mean the loop did not move in between. -/
+theorem no_line_entered_twice_in_one_invocation (p : Prog) (n : Nat) (rest : List Frame)
+    (x y z : List Frame × Nat × Bool) (h1 : Life p n rest x y) (h2 : Life p n rest y z)
+    (hc : chainOK p (x.1 ++ .children n x.2.1 x.2.2 :: rest))
+    (hc' : chainOK p (y.1 ++ .children n y.2.1 y.2.2 :: rest)) (he : InterpC02.pos x = InterpC02.pos z) :
+    InterpC02.pos y = InterpC02.pos x := no_return_within_invocation p n rest x y z h1 h2 hc hc' he
+
+/-- A line is entered only by the loop advancing onto it, and it is the line with the loop's index. -/
+theorem line_entered_only_by_loop_advance (p : Prog) (s : St) (rest : List Frame) (n inx c : Nat) (rest' : List Frame)
+    (hch : chainOK p (.children n inx false :: rest))
+    (h : (stepGen p s (.children n inx false :: rest)).2.1 = .wrapEnter c :: rest') :
+    (node p n).children[inx]? = some c ∧ rest' = .children n inx true :: rest :=
+  child_entered_by_loop_advance p s rest n inx c rest' hch h
+
+/-- The `start` of the line the loop is inside of moves the position from `4·i+2` to `4·i+3`: with
+    `invocation_visits_lines_in_order`, a line starts at most once per invocation and generator. -/
+theorem start_of_a_line_moves_the_position (p : Prog) (s : St) (c : Nat) (below : List Frame) (e : Event)
+    (hcore : coreEvs (stepGen p s (.wrapThr c :: below)).1 = e :: coreEvs s) :
+    e = .start c ∧ (stepGen p s (.wrapThr c :: below)).2.1 = .wrapDispatch c :: below :=
+  start_moves_position p s c below e hcore
+
+/-- **Which generators exist**: every generator other than the main one is created by the registration of
+    an interrupt and starts at that node's wrapper (`stepGen_gens`); for methods without Alarm, Call macro,
+    End block and End blocks a Watch is registered at most once in a whole run — so the lines of such a
+    method are run by the main generator and by at most one generator per Watch. -/
+theorem watch_registered_at_most_once (p : Prog) (hna : noAbort p = true) (w : Nat) (reqs : List Req) :
+    cntReg w (trace p reqs) ≤ 1 := by
+  have h0 : RegQ w (cntReg w ((init p, ([] : List Event)) : St × List Event).2) (init p, ([] : List Event)).1 := by
+    refine ⟨by simp [cntReg], fun _ => by simp [cntReg]⟩
+  exact (regQ_run p hna w reqs _ h0).1
+
+theorem new_generators_start_at_a_wrapper (p : Prog) (s : St) (stack : List Frame) :
+    ∀ g ∈ (stepGen p s stack).1.gens, g ∈ s.gens ∨ g.stack = [.wrapEnter g.node] := stepGen_gens p s stack
 
 /-! ## instruction events (all methods) -/
 
@@ -410,6 +477,38 @@ example : sequential seqDemo = true ∧
     (List.range 9).map (fun k => cntStart k (trace seqDemo (sched 60 []))) = [1, 1, 1, 1, 1, 1, 0, 1, 1] ∧
     (final seqDemo (sched 60 [])).marks = ["a", "b", "c"] ∧
     ((final seqDemo (sched 60 [])).rt 0).childIndex = 3 := by decide +kernel
+
+/-- non-vacuity of the per-invocation theorems: in `demo` the method's loop enters line 0 from the position
+    before it (a `Life` step from position 0 to position 1), and the Watch is registered exactly once -/
+example : Life demo 0 [.body 0 1, .wrapAfter 0] ([], 0, false) ([.wrapEnter 1], 0, true) ∧
+    InterpC02.pos (([], 0, false) : List Frame × Nat × Bool) = 0 ∧
+    InterpC02.pos (([.wrapEnter 1], 0, true) : List Frame × Nat × Bool) = 1 ∧
+    noAbort demo = true ∧ cntReg 2 (trace demo (sched 40 [0])) = 1 :=
+  ⟨Life.step _ _ _ (init demo) (by decide +kernel) (Life.refl _), by decide, by decide, by decide +kernel, by decide +kernel⟩
+
+/-! ## which blank / comment lines the code treats as trailing (model of WhitespaceCheckAnalyzer)
+
+`has_only_trailing_whitespace` is an input bit of the interpreter model (`Kind.blank trailing`); it is computed
+by `WhitespaceCheckAnalyzer`, modelled in `OPM.Model.TrailingWs` and compared with the code by its own
+correspondence stream (props/C02.py, `trailing-whitespace-flag`); the oracle judges "end of a scope" from the
+source text, independently of both. -/
+
+open OPM.TrailingWs in
+/-- A line is flagged exactly if it is a blank/comment line that lies after the last instruction line among
+    the direct children of EVERY enclosing scope (i.e. in the tail of the method, not merely at the end of
+    its own scope — the gap between the code and the property's wording is a recorded finding). -/
+theorem flagged_iff_after_last_instruction_of_every_enclosing_scope (t : Tree) (n : Nat) :
+    flag t n = true ↔ (nd t n).ws = true ∧ ∀ a ∈ ancestors t n, lastNonWs t a < (nd t n).line := by
+  unfold flag
+  simp only [Bool.and_eq_true, List.all_eq_true, decide_eq_true_eq]
+
+open OPM.TrailingWs in
+/-- `Watch` [ `Mark`, `# c1` ] / `Mark` / `# c2`: the comment that closes the Watch body is NOT flagged (an
+    instruction follows further out), the one at the end of the method is -/
+example : flag #[⟨none, 0, false⟩, ⟨some 0, 0, false⟩, ⟨some 1, 1, false⟩, ⟨some 1, 2, true⟩, ⟨some 0, 3, false⟩,
+    ⟨some 0, 4, true⟩] 3 = false ∧
+    flag #[⟨none, 0, false⟩, ⟨some 0, 0, false⟩, ⟨some 1, 1, false⟩, ⟨some 1, 2, true⟩, ⟨some 0, 3, false⟩,
+    ⟨some 0, 4, true⟩] 5 = true := by decide
 
 /-! ## the full statement, and where it fails -/
 
